@@ -119,7 +119,7 @@ PROPS = {
         "assumptions": ["a Send that fails before anything leaves the socket is outside the outcome alphabet (it still consumes a number, which is the safe choice)"],
     },
     "C04": {
-        "claim": "accept_sound: whenever an in-session command completes, some reply of the script decoded such that its session wrapper has the authenticated flag set (integrity negotiated), carries this session's ID, its trailing AuthCode equals the negotiated keyed hash under K1 of everything before it, and (if flagged encrypted) decrypted under K2 to a valid pad; unauthenticated or foreign-session packets classify as retry. The bit-flip clause reduces to: an accepted datagram satisfies the MAC equation (unforgeability itself is the MAC's job, not claimed).",
+        "claim": "accept_sound: whenever an in-session command completes, some reply of the script decoded such that its session wrapper has the authenticated flag set (integrity negotiated), carries this session's ID, its trailing AuthCode equals the negotiated keyed hash under K1 of everything before it, and (if flagged encrypted) decrypted under K2 to a valid pad; unauthenticated or foreign-session packets classify as retry. The bit-flip clause reduces to: an accepted datagram satisfies the MAC equation (unforgeability itself is the MAC's job, not claimed); and, with no assumption on the hash, tampered_authcode_is_retry: the conforming BMC's response with ANY other bytes in place of its AuthCode (a flipped bit, a shorter / longer / foreign code, none) is a retry, with the genuine code it is the command's final response.",
         "note": "trusted: Lean kernel; the byte-level model of V2Session.buildAndSend / V2Sessionless.buildAndSendCommand (hand-written; tied by a byte-exact correspondence run: every transmitted datagram, the result and the final counter, against the real SendCommand after a real handshake, crypto/rand replaced by an entropy stream); HMAC/AES assumed lawful (abstract Ops); backoff.Retry + context modelled as 'the script runs out'; the reference BMC in the harness (sim.go) is an independent Go transcription of the spec used for the model-free verdicts",
         "technique": 'Lean 4 proof (inversion lemmas over the decode chain; reduction to the MAC equation) + differential correspondence over a forged-reply catalogue',
         "ref": '§5 C04',
